@@ -1190,6 +1190,15 @@ class PX:
         if clos[0] == 'fn' and clos[1] in self.p.bodies and not self.p.has_loops(clos[1]):
             return self._run(st, clos[1], list(args), depth + 1)
         if clos[0] == 'fn' and clos[1] not in self.p.bodies:
+            # an external function with a semantic model (u8 / TinyStr predicates, conversions ...) used as a callback
+            fake = {'ga': clos[2] if len(clos) > 2 else '', 'dest': {'ty': '', 'l': 0, 'p': []}, 'sp': None, 'args': [], 'f': clos[1], 'r': clos[1]}
+            try:
+                r = self.models.call(self, st, clos[1], fake, list(args), None, None)
+            except Exception:
+                r = None
+            if r is not None:
+                return r
+        if clos[0] == 'fn' and clos[1] not in self.p.bodies:
             # a tuple-variant / tuple-struct constructor used as a function (`map_err(Error::Variant)`)
             owner, _, vname = clos[1].rpartition('::')
             if (owner, vname) in self.p.varidx:
